@@ -58,6 +58,7 @@ def run(rep, tier):
                     rep.tie_broken(f'centroid model ({kd}) and implementation disagree', {'op': ln[:300], 'model': o, 'impl': e})
     sources_stream(rep, r, 40 * scale)
     symmetry_stream(rep, r, 25 * scale)
+    quadratic_edge_flips(rep, r, 20 * scale)
     xpeak_stream(rep, r, 16 * scale)
 
 
@@ -351,6 +352,42 @@ def symmetry_stream(rep, r, n):
                 rep.violation(f'centroid-{name}:{f.__name__}', f'{f.__name__} violates {name} on a point-symmetric source '
                               f'(centre {(cx, cy)}, result {(float(x), float(y))})', {'image': img.tolist(), 'func': f.__name__})
                 break
+
+
+def quadratic_edge_flips(rep, r, n):
+    """(S) centroid_quadratic commutes with both flips and with transposition (fit_boxsize swapped) for sources a few pixels from any edge of a
+    non-square frame with a rectangular fit box - the fitting box is then clipped and shifted back inside the image on that side"""
+    from photutils.centroids import centroid_quadratic
+    for k in range(n):
+        ny, nx = r.choice([(21, 25), (25, 21), (19, 30)])
+        fb = [(7, 3), (3, 7), (5, 3), (3, 5), (7, 5)][k % 5]
+        edge = ['top', 'bottom', 'left', 'right'][k % 4]
+        d = r.choice([1, 2, 2, 3]) + r.uniform(-0.3, 0.3)          # distance of the source centre from that edge (the peak pixel is not ON the edge)
+        cx = {'left': d, 'right': nx - 1 - d}.get(edge, r.uniform(6, nx - 7))
+        cy = {'bottom': d, 'top': ny - 1 - d}.get(edge, r.uniform(6, ny - 7))
+        yy, xx = np.mgrid[0:ny, 0:nx]
+        sx, sy = r.uniform(1.3, 2.2), r.uniform(1.3, 2.2)
+        img = 100 * np.exp(-0.5 * (((xx - cx) / sx) ** 2 + ((yy - cy) / sy) ** 2)) + 0.01 * xx + 0.02 * yy
+        with warnings.catch_warnings():
+            warnings.simplefilter('ignore')
+            try:
+                x, y = centroid_quadratic(img, fit_boxsize=fb)
+                fx, fy = centroid_quadratic(img[:, ::-1], fit_boxsize=fb)
+                ux, uy = centroid_quadratic(img[::-1, :], fit_boxsize=fb)
+                tx, ty = centroid_quadratic(img.T, fit_boxsize=fb[::-1])
+            except Exception as e:                              # noqa: BLE001
+                rep.violation(f'quadratic-raises:{type(e).__name__}:edge', f'centroid_quadratic raised {e!r}', {'image': img.tolist(), 'fit_boxsize': list(fb)})
+                continue
+        rep.case(('quad-edge', edge, fb, img.tobytes()[:48]), True, kind=f'quadratic-edge-flips:{edge}')
+        rep.probe_only += 1
+        if not np.isfinite([x, y]).all():
+            continue
+        bad = [nm for nm, ok in (('flip-x', close(fx, nx - 1 - x, 1e-8) and close(fy, y, 1e-8)), ('flip-y', close(ux, x, 1e-8) and close(uy, ny - 1 - y, 1e-8)),
+                                 ('transpose', close(tx, y, 1e-8) and close(ty, x, 1e-8))) if not ok]
+        if bad:
+            rep.violation(f'centroid-{bad[0]}:centroid_quadratic:edge', f'centroid_quadratic(fit_boxsize={fb}) on a source {d:.2f} px from the {edge} edge of a {ny} x {nx} frame: '
+                          f'result {(float(x), float(y))}, on the x-flipped image {(float(fx), float(fy))}, y-flipped {(float(ux), float(uy))}, transposed '
+                          f'(box swapped) {(float(tx), float(ty))}', {'image': img.tolist(), 'fit_boxsize': list(fb)})
 
 
 def replay(rep, data):
